@@ -173,3 +173,146 @@ def run_c15(prop, tier, seed, t0):
             "A cell = escape class of a byte / adjacency class of a pair / serde entry point x length class.")
     return finish(prop, tier, seed, agg, t0, "exploration", rule, exhaustive=True, min_eval_key="evaluations_total",
                   assumptions=["the hand-written literal parser implements the Rust reference grammar for byte strings", "serde_test's token (de)serializer is a faithful serde data model"])
+
+
+# ----------------------------------------------------------------------------------- E3
+
+
+def buf_jobs(buildname, mode, seed, nshards, extra, label, kind="native", crash="inconclusive", env=None, parity=True, timeout=1200):
+    build(buildname, ["bufconf"])
+    exe = binpath(buildname, "bufconf")
+    jobs = []
+    for s in range(nshards):
+        argv = [exe, mode, "--seed", str(seed), "--shard", str(s), "--nshards", str(nshards)] + extra
+        if parity:
+            argv += ["--parity", ["mixed", "odd", "even"][s % 3]]
+        jobs.append(Job(f"{label}:{s}", argv, env=env, kind=kind, build=buildname, crash=crash, timeout=timeout))
+    return jobs
+
+
+def buf_miri(mode, args_per_job, label, seed, target=None, ignore_leaks=True, timeout=1500):
+    flags = "-Zmiri-ignore-leaks" if ignore_leaks else ""
+    js = miri_jobs("bufconf", [[mode] + a for a in args_per_job], label, seeds=None, target=target, timeout=timeout)
+    for k, j in enumerate(js):
+        j.env["MIRIFLAGS"] = f"-Zmiri-seed={seed * 13 + k} {flags}".strip()
+    return js
+
+
+def run_and_finish(prop, tier, seed, t0, jobs, rule, level="exploration", key="cases", exhaustive=None, extra=None, assumptions=None, flt=None):
+    agg = Agg(prop)
+    for j in run_jobs(jobs):
+        agg.absorb(j)
+    return finish(prop, tier, seed, agg, t0, level, rule, nontrivial_filter=flt, extra=extra, assumptions=assumptions, exhaustive=exhaustive, min_eval_key=key)
+
+
+READER_RULE = ("reader trees built from the crate's real adapters (Box<dyn Buf> at every level: slice, Bytes x5 reps, BytesMut x3, Cursor at a position, wrapped VecDeque, harness multi-chunk Seg with default / multi-slice / trait-default chunks_vectored; Chain, Take, &mut T, Box<T> to depth 4) are stepped in lock-step with a flat Vec<u8> model: "
+               "remaining/chunk laws after every op, advance, chunks_vectored (sentinel-filled dst), copy_to_slice, copy_to_bytes, get_u8/get_u32_le, into_iter, out-of-range arguments must panic; driven through dyn, &mut T and Box<T>. "
+               "Part 1 enumerates every fragmentation of sequences of length<=6 (with empty chunks) x 7 wrappers x every pair of ops; part 2 is seeded random trees and op sequences. "
+               "A cell = (outermost adapter | op | whether the op ended inside / at / across a chunk, a/b or limit boundary | access path).")
+
+
+@plan("C09")
+def run_c09(prop, tier, seed, t0):
+    quick = tier != "thorough"
+    n = vlib.JOBS
+    jobs = buf_jobs("dbg", "frag", seed, n, ["--maxlen", "6" if quick else "7"], "frag-dbg")
+    jobs += buf_jobs("rel", "readers", seed, n, ["--count", "40000" if quick else "1500000"], "rd-rel")
+    jobs += buf_jobs("dbg", "readers", seed + 1, n, ["--count", "15000" if quick else "400000"], "rd-dbg")
+    nm = 4 if quick else 16
+    jobs += buf_miri("readers", [["--seed", str(seed), "--shard", str(k), "--nshards", str(nm), "--count", "60" if quick else "250"] for k in range(nm)], "miri-rd", seed)
+    return run_and_finish(prop, tier, seed, t0, jobs, READER_RULE, extra={"fragmentations_exhaustive_up_to_len": 6 if quick else 7},
+                          assumptions=["the harness Seg buffer itself obeys the Buf laws (it is checked by the same oracle as a bare leaf)"])
+
+
+@plan("C12")
+def run_c12(prop, tier, seed, t0):
+    quick = tier != "thorough"
+    n = vlib.JOBS
+    jobs = buf_jobs("dbg", "frag", seed, n, ["--maxlen", "5" if quick else "7"], "frag-dbg")
+    jobs += buf_jobs("rel", "readers", seed + 2, n, ["--count", "40000" if quick else "1500000"], "rd-rel")
+    jobs += buf_jobs("dbg", "readers", seed + 3, n // 2, ["--count", "10000" if quick else "300000"], "rd-dbg")
+    jobs += buf_jobs("rel", "writers", seed, n, ["--count", "40000" if quick else "1500000"], "wr-rel")
+    jobs += buf_jobs("dbg", "writers", seed + 1, n // 2, ["--count", "10000" if quick else "300000"], "wr-dbg")
+    rule = (READER_RULE + " Additionally (the part owned by C12) every tree is taken apart afterwards with the crate's own into_inner()/get_ref()/limit(): each inner buffer must hold exactly model[transferred..], limit() must equal n - transferred (also after set_limit in mid-stream, limits 0 / inside / equal / beyond / usize::MAX); "
+            "Reader::read / fill_buf+consume / read_to_end and Writer::write / flush at the root must transfer min(available, requested) and never fail; writer trees (Chain, Limit, &mut, Box over Vec, BytesMut, &mut [u8], &mut [MaybeUninit<u8>]) must distribute bytes first-buffer-first within their limits.")
+    return run_and_finish(prop, tier, seed, t0, jobs, rule, assumptions=["expected per-leaf byte counts are computed from the adapter tree by the harness (distribute())"])
+
+
+@plan("C10")
+def run_c10(prop, tier, seed, t0):
+    quick = tier != "thorough"
+    n = vlib.JOBS
+    deep = [] if quick else ["--deep"]
+    jobs = buf_jobs("dbg", "getters", seed, n, deep, "get-dbg")
+    jobs += buf_jobs("rel", "getters", seed, n, deep, "get-rel")
+    # Miri: host, big-endian (s390x) and 32-bit (i686) interpret slices of the same table
+    tot = 600 if quick else 120
+    per = 2 if quick else 8
+    for tname, target in (("host", None), ("s390x", "s390x-unknown-linux-gnu"), ("i686", "i686-unknown-linux-gnu")):
+        args = [["--shard", str((seed * 37 + k * 53) % tot), "--nshards", str(tot)] for k in range(per)]
+        jobs += buf_miri("getters", args, "miri-" + tname, seed, target=target, timeout=2400)
+    rule = ("exhaustive table: each of the 38 get_X and 38 try_get_X methods (u8..i128, f32/f64, uint/int with nbytes 0..=9; be/le/ne) x 8 value patterns (00.., ff.., 80 00.., 7f ff.., ..80, 01 02 03.., 2 pseudo-random) "
+            "x 9 implementors (slice, Bytes, BytesMut, Cursor, wrapped VecDeque, Seg, Chain, Chain(&mut Seg), Take(Chain(SegMulti))) x every position of one chunk boundary before/inside/after the value (a second boundary for widths>=4) x call path (dyn, &mut T, Box<T>) "
+            "x every shortfall 0..width-1; oracle = from_{be,le,ne}-style reference decode with arithmetic sign extension, Err{requested,available}, cursor position and left-over bytes. The native table is complete; Miri (host, s390x big-endian, i686) interprets a seeded slice of it. "
+            "A cell = (type+endianness | width | implementor | path | boundary class / short).")
+    return run_and_finish(prop, tier, seed, t0, jobs, rule, key="getter_calls", exhaustive=True,
+                          assumptions=["the reference decoder in harness/src/bufx/getters.rs", "_ne methods are compared with the target's endianness (big-endian reached only under Miri s390x)"])
+
+
+@plan("C11")
+def run_c11(prop, tier, seed, t0):
+    quick = tier != "thorough"
+    n = vlib.JOBS
+    jobs = buf_jobs("rel", "writers", seed, n, ["--count", "60000" if quick else "2000000"], "wr-rel")
+    jobs += buf_jobs("dbg", "writers", seed + 1, n, ["--count", "20000" if quick else "500000"], "wr-dbg")
+    jobs += buf_jobs("asan-rel", "writers", seed + 2, n // 2, ["--count", "20000" if quick else "500000"], "asan-rel", kind="asan", env=dict(ASAN_ENV, ASAN_OPTIONS=ASAN_ENV["ASAN_OPTIONS"].replace("detect_leaks=1", "detect_leaks=0")), parity=False)
+    nm = 4 if quick else 16
+    jobs += buf_miri("writers", [["--seed", str(seed), "--shard", str(k), "--nshards", str(nm), "--count", "50" if quick else "200"] for k in range(nm)], "miri-wr", seed)
+    rule = ("writer trees (Vec<u8> and BytesMut in 3 kinds with/without initial contents and spare capacity, &mut [u8] and &mut [MaybeUninit<u8>] inside guarded arenas, Chain, Limit incl. through &mut dyn, nested to depth 4, driven through dyn / &mut T / Box<T>) receive sequences of put_slice, put_bytes, every typed put_X (38 methods, values incl. sign-bit patterns, nbytes 0..=9), put(Buf) with reader trees (specialised and default put), set_limit; "
+            "sizes are chosen to fit, fill exactly, straddle leaf ends, trigger growth or not fit. After every step remaining_mut/chunk_mut laws; at the end the tree is dismantled: contents == initial ++ encodings in call order, guard bytes and bytes beyond the cursor untouched, per-leaf byte counts as chain/limit dictate, non-fitting writes must panic, every typed value is read back with the matching get_X. "
+            "A cell = (outermost target | method | fits/exact/nofit | path).")
+    return run_and_finish(prop, tier, seed, t0, jobs, rule, assumptions=["reference encodings = low-order bytes of the value in the named byte order"])
+
+
+@plan("C17")
+def run_c17(prop, tier, seed, t0):
+    quick = tier != "thorough"
+    n = vlib.JOBS
+    cnt = "3000" if quick else "150000"
+    jobs = buf_jobs("dbg", "faults", seed, n, ["--count", cnt], "flt-dbg", crash="violation")
+    jobs += buf_jobs("rel", "faults", seed + 1, n, ["--count", cnt], "flt-rel", crash="violation")
+    jobs += buf_jobs("asan-rel", "faults", seed + 2, n, ["--count", cnt], "asan-rel", kind="asan", env=ASAN_ENV, crash="violation", parity=False)
+    if not quick:
+        build("asan-dbg", ["bufconf"])
+        jobs += buf_jobs("asan-dbg", "faults", seed + 3, n, ["--count", cnt], "asan-dbg", kind="asan", env=ASAN_ENV, crash="violation", parity=False)
+    nm = 6 if quick else 24
+    mj = buf_miri("faults", [["--seed", str(seed), "--shard", str(k), "--nshards", str(nm * (12 if quick else 3)), "--count", "8" if quick else "40"] for k in range(nm)], "miri-flt", seed, ignore_leaks=False)
+    for j in mj:
+        j.crash = "violation"
+    jobs += mj
+    rule = ("fault injection: a Buf written in safe code lies according to a plan (which trait call number misreports: remaining +1/+9/-1/usize::MAX/0, chunk shorter/empty/a different valid slice, advance ignored/halved/doubled, or panics; chunks_vectored returning more than dst.len(); a call budget makes every schedule terminate), "
+            "plus AsRef owners answering differently per call / panicking and iterators with wrong size_hints. 30 crate entry points consume them (every getter row, copy_to_slice/bytes incl. Chain/Take, chunks_vectored via Take/Chain, put into Vec/BytesMut/slices/Limit/Chain, Reader, IntoIter, from_owner, Extend/FromIterator, forwarding impls). "
+            "Exhaustive over entry x first lying call<=6 x 12 lie codes, then seeded multi-lie schedules. Oracle: ledger violations, ledger leak balance after unwinding, ASan/LSan, Miri, process status; wrong results and panics are allowed. "
+            "A cell = (entry point | outcome ok/panic/budget | number of lies).")
+    return run_and_finish(prop, tier, seed, t0, jobs, rule, level="fault_enumeration", key="fault_cases",
+                          assumptions=["BufMut is an unsafe trait: lying BufMut implementations are out of scope", "size_hint lies are limited to values that either panic in Vec (capacity overflow) or are small; multi-GiB requests (allocation-failure aborts) are not issued"])
+
+
+# ----------------------------------------------------------------------------------- E5
+
+
+@plan("C18")
+def run_c18(prop, tier, seed, t0):
+    n = vlib.JOBS
+    build("rel", ["recycle"])
+    exe = binpath("rel", "recycle")
+    jobs = [Job(f"recycle:{s}", [exe, "run", "--seed", str(seed), "--shard", str(s), "--nshards", str(n), "--tier", tier], build="rel", timeout=3000) for s in range(n)]
+    if tier == "thorough":
+        # a second seed for the seeded-random size sequences
+        jobs += [Job(f"recycle2:{s}", [exe, "run", "--seed", str(seed + 1), "--shard", str(s), "--nshards", str(n), "--tier", tier], build="rel", timeout=3000) for s in range(n)]
+    rule = ("recycling patterns = consumption {split, split_to, advance, truncate} x freeze x main-buffer round trip through Bytes {none, try_into_mut, From} x unsplit x retention window 0..3 x initial capacity {0,64,1Ki,4Ki,64Ki} x message-size supports (periodic or seeded-random) x leftover {0,3,50}; "
+            "each runs for 10*W rounds where the warm-up W is measured in bytes pushed (>= 4 buffer generations, >= 1000 rounds). Trend monitor over the ledger's counters (counting mode): (a) peak live bytes after warm-up <= warm-up peak + 2 requests + slack and no 3 strictly increasing windows, "
+            "(b) with every part dropped before the refill: 0 byte-buffer allocations after warm-up (a single doubling step to >= 2x the largest buffer so far is attributed to amortised growth and bounded by (a)), (c) reserve(n) on an empty sole handle whose allocation is >= n never allocates (per-call events). "
+            "quick = patterns with 10*W <= 2e5 rounds; thorough = whole grid. A cell = one pattern class with its outcome.")
+    return run_and_finish(prop, tier, seed, t0, jobs, rule, key="patterns",
+                          assumptions=["ledger counting mode counts exactly the align-1 allocations made inside the scope", "finite histories: a trend is judged over 9 windows of W rounds"])
